@@ -29,14 +29,22 @@ for fname, fam in T.FAMILIES.items():
     keep = []
     for p in sorted(cls.parameters):
         d = base.get(p, getattr(cls, p, None))
-        if isinstance(d, bool) or not isinstance(d, float) or p == "geometry":
+        if p == "geometry":
             continue
-        v = d * 1.07 if d != 0 else 0.1
-        kw = dict(base); kw[p] = v
-        r = world.infork(lambda: probe(fam, q, kw), timeout=300)
-        ok = r[0] == "ok" and r[1]
-        if ok:
-            keep.append({"param": p, "kwargs": enc(kw)})
+        if isinstance(d, bool):
+            cands = [not d]                      # flags
+        elif isinstance(d, int):
+            cands = [d + 1] + ([d - 1] if d > 2 else [])     # series lengths, table sizes, mode counts
+        elif isinstance(d, float):
+            cands = [d * 1.07 if d != 0 else 0.1]
+        else:
+            continue
+        for v in cands:
+            kw = dict(base); kw[p] = v
+            r = world.infork(lambda: probe(fam, q, kw), timeout=300)
+            ok = r[0] == "ok" and r[1]
+            if ok:
+                keep.append({"param": p if len(cands) == 1 or v == cands[0] else p + "-", "kwargs": enc(kw)})
     out[fname] = keep
     print("%-22s %d variants: %s" % (fname, len(keep), [k["param"] for k in keep]), flush=True)
 json.dump({"comment": "one-at-a-time parameter variants (tools/mk_auto_pool.py); appended to the family pools at load time", "families": out},
